@@ -681,6 +681,11 @@ class GenericPlainRegistry(Generic[QuantityT, UnitT], metaclass=RegistryMeta):
                 )
 
             name = prefix + unit_name
+            if name in self._units:
+                # The prefixed reading has the name of an explicitly defined unit
+                # (e.g. 'milli' + 'arcsecond' and 'milliarcsecond = 1e-3 * arcsecond'):
+                # keep that definition, with its own symbol and aliases.
+                return name
             symbol = self.get_symbol(name, case_sensitive)
             prefix_def = self._prefixes[prefix]
             self._units[name] = UnitDefinition(
